@@ -30,11 +30,15 @@ type op struct {
 }
 type prog struct {
 	NOps, NSRs int
-	Ops        []op
+	// SharedIDs: operator i and source runner i carry the same node id (ids are
+	// configurable and nothing makes them distinct across roles; testrun uses one
+	// id for both)
+	SharedIDs bool
+	Ops       []op
 }
 
 func gen(rt *rapid.T) prog {
-	p := prog{NOps: rapid.IntRange(1, 4).Draw(rt, "nops"), NSRs: rapid.IntRange(1, 4).Draw(rt, "nsrs")}
+	p := prog{NOps: rapid.IntRange(1, 4).Draw(rt, "nops"), NSRs: rapid.IntRange(1, 4).Draw(rt, "nsrs"), SharedIDs: rapid.IntRange(0, 3).Draw(rt, "sharedids") == 0}
 	n := rapid.IntRange(2, 50).Draw(rt, "n")
 	for i := 0; i < n; i++ {
 		p.Ops = append(p.Ops, op{
@@ -82,6 +86,9 @@ func exec(p prog, c *hx.Case) error {
 	srIDs := make([]string, p.NSRs)
 	for i := range srIDs {
 		srIDs[i] = fmt.Sprintf("sr%d", i)
+		if p.SharedIDs && i < len(opIDs) {
+			srIDs[i] = opIDs[i]
+		}
 	}
 	// Who indexes the list [members that still have to acknowledge..., members that
 	// already did..., a foreign id]: small values make progress, larger ones are
@@ -351,6 +358,7 @@ func exec(p prog, c *hx.Case) error {
 		c.NonTrivial()
 	}
 	c.LabelIf(restarts > 0, "restart")
+	c.LabelIf(p.SharedIDs, "operator-and-source-runner-share-an-id")
 	c.LabelIf(completed >= 2, ">=2 published")
 	return nil
 }
